@@ -49,7 +49,7 @@ func init() {
 	m := models
 	lock := func(ex *Exec, fr *frame, a []Value) Value {
 		g := ex.mutexGhost(a[0].(*Ptr))
-		ex.yieldPoint()
+		ex.yieldPoint("lock")
 		ex.block(func() bool { return !g.writer && g.readers == 0 }, "Lock of a held mutex")
 		g.writer = true
 		g.acquires++
@@ -79,7 +79,7 @@ func init() {
 	}
 	m["(*sync.RWMutex).RLock"] = func(ex *Exec, fr *frame, a []Value) Value {
 		g := ex.mutexGhost(a[0].(*Ptr))
-		ex.yieldPoint()
+		ex.yieldPoint("lock")
 		ex.block(func() bool { return !g.writer }, "RLock of a write-held mutex")
 		g.readers++
 		g.acquires++
@@ -113,7 +113,7 @@ func init() {
 	}
 	m["(*sync.WaitGroup).Wait"] = func(ex *Exec, fr *frame, a []Value) Value {
 		g := ex.wgGhost(a[0].(*Ptr))
-		ex.yieldPoint()
+		ex.yieldPoint("wg")
 		ex.block(func() bool { return g.n <= 0 }, "WaitGroup.Wait")
 		return nil
 	}
@@ -179,6 +179,7 @@ func init() {
 		ft := ex.P.Pkgs["runtime"].Type("Func").Type()
 		return &Ptr{Obj: ex.newObject(ft, &Opaque{T: ft}, "runtime.Func")}
 	}
+	m["(runtime.errorString).Error"] = func(ex *Exec, fr *frame, a []Value) Value { return a[0] }
 	m["(*runtime.Func).Name"] = func(ex *Exec, fr *frame, a []Value) Value { return ex.mkStr("func") }
 
 	// --- strconv / sort / reflect ------------------------------------------
